@@ -94,3 +94,30 @@ def gfortran_sample(ctx, rendered, every=10):
     if err:
         raise HarnessError("generator produced a program gfortran rejects:\n" + err[:1500] + "\n" +
                            "\n".join(f"-- {k}\n{v}" for k, v in rendered.files.items())[:6000])
+
+
+def reachable_ignoring_accessibility(module_scope, ent, seen=None):
+    """Is `ent` declared in a module reachable from module_scope by following USE statements while
+    ignoring every module's default accessibility (what a naive tree walk does)?"""
+    seen = seen or set()
+    if id(module_scope) in seen:
+        return False
+    seen.add(id(module_scope))
+    if ent.scope is module_scope:
+        return True
+    return any(reachable_ignoring_accessibility(u.module.inner, ent, seen) for u in module_scope.uses)
+
+
+def leak_through_private_module(scope, ent):
+    """True if `ent` is NOT accessible from `scope` by the reference rules but would be found by a walk
+    that descends through a default-PRIVATE intermediate module (known fortls behaviour)."""
+    s = scope
+    while s is not None:
+        for u in s.uses:
+            m = u.module.inner
+            if ent.scope is not m and reachable_ignoring_accessibility(m, ent):
+                exported = any(e is ent for e in m.exported().values())
+                if not exported:
+                    return True
+        s = s.parent
+    return False
